@@ -967,6 +967,22 @@ func Run(c *hx.Ctx) error {
 	if c.Arg("mode", "") == "replay" {
 		return runReplay(c)
 	}
+	if c.Arg("mode", "") == "handler" {
+		rr := hx.NewRng(c.Seed ^ 0x4a)
+		var valid []genLine
+		for len(valid) < 200 {
+			g := genValid(rr)
+			if p, _, stray := refLineQ(g.text); p != nil && !stray && p.hasTS && p.ts < 1e9 && len(p.name) > 0 && bytes.IndexByte(g.text, '\r') < 0 {
+				valid = append(valid, g)
+			}
+		}
+		return runHandlerOps(c, rr, c.Budget(500, 20000), func() []byte {
+			if rr.Chance(80) {
+				return genValid(rr).text
+			}
+			return genMalformed(rr).text
+		}, func() []byte { return valid[rr.Intn(len(valid))].text })
+	}
 	if c.Arg("mode", "") == "e2e" {
 		return runE2E(c, hx.NewRng(c.Seed^0xe2e), c.Budget(300, 6000))
 	}
@@ -1117,6 +1133,36 @@ func Run(c *hx.Ctx) error {
 			c.Count("answer:batch-err")
 		} else {
 			c.Count("answer:batch-ok")
+		}
+	}
+
+	// ---- the handler itself and the body splitter (handler.go) --------------------------------
+	if c.Arg("skip-handler", "") == "" {
+		valid := func() []byte {
+			for {
+				g := pick(poolNoBs)
+				if bytes.IndexByte(g, '\r') >= 0 {
+					continue
+				}
+				if p, _, stray := refLineQ(g); p != nil && !stray && p.hasTS && p.ts < 1e9 && len(p.name) > 0 {
+					return g
+				}
+			}
+		}
+		anyLine := func() []byte {
+			if r.Chance(80) {
+				return genValid(r).text
+			}
+			return genMalformed(r).text
+		}
+		if err := runHandlerOps(c, r, min(n/10, 30000), anyLine, valid); err != nil {
+			return err
+		}
+	}
+	// ---- end to end: write -> store -> query -> rendering (e2e.go) ---------------------------
+	if c.Arg("skip-e2e", "") == "" {
+		if err := runE2E(c, r, min(n/50, 10000)); err != nil {
+			return err
 		}
 	}
 	return nil
